@@ -60,7 +60,7 @@ class C12(Check):
     STUB = ['peer mode: scripted SECoP server', 'TCP (sim.net)', 'hardware (fake driver)', 'clock']
     ASSUMPTIONS = ['values are compared in wire form by the harness\' own conversion (floats within resolution)',
                    'a registration is ordered against the message stream by a sync marker the peer sends']
-    PROBES = ('c12.peer-mode', 'c12.small-receive-buffer', 'c12.e2e-mode', 'c12.proxy-mode', 'c12.driver-update', 'c12.mirror-compared',
+    PROBES = ('c12.peer-mode', 'c12.refused-write', 'c12.small-receive-buffer', 'c12.e2e-mode', 'c12.proxy-mode', 'c12.driver-update', 'c12.mirror-compared',
               'c12.concurrent-writes', 'c12.malformed', 'c12.future-timestamp',
               'c12.shorthand', 'c12.raising-callback', 'c12.oneshot-callback', 'c12.proxy-drop',
               'c12.node-restart-added', 'c12.node-restart-changed', 'c12.node-restart-same', 'c12.partial-struct-written')
@@ -195,6 +195,13 @@ class C12(Check):
                         if c.get('arg'):
                             op['v'] = dtgen.valid_wire(rng, c['arg'])
                         ops.append(op)
+            ro = [(s, p) for s in specs for p in s['params'] if p['readonly'] and p.get('export', True)]
+            if ro and mode == 'e2e' and rng.random() < 0.4:
+                # a change which the node refuses (the parameter is read-only): the caller gets the error, the cache
+                # keeps what the last update / reply said
+                s, p = rng.choice(ro)
+                ops.insert(rng.randrange(len(ops) + 1), {'op': 'set_refused', 'm': s['name'], 'p': p['name'],
+                                                         'v': dtgen.valid_wire(rng, p['di'])})
             if mode == 'proxy':
                 # frappy.proxy can not forward commands with tuple or struct arguments (observation, see DESIGN.md);
                 # the property speaks about values written, so they are left out here
@@ -439,6 +446,18 @@ class C12(Check):
                         sim.count('c12.partial-struct-written')
                         item = cl.setParameter(op['m'], op['p'], dtgen.to_internal(di, op['partial']))
                     rec['cache'] = self._item(di, item)
+                elif op['op'] == 'set_refused':
+                    di = di_of[op['m'], op['p']]
+                    sim.count('c12.refused-write')
+                    it0 = cl.cache.get((op['m'], op['p']))
+                    rec['before'] = None if it0 is None else self._item(di, it0)
+                    try:
+                        cl.setParameter(op['m'], op['p'], dtgen.to_internal(di, op['v']))
+                        rec['refused'] = None
+                    except Exception as e:   # noqa
+                        rec['refused'] = type(e).__name__
+                    it1 = cl.cache.get((op['m'], op['p']))
+                    rec['after'] = None if it1 is None else self._item(di, it1)
                 elif op['op'] == 'pairset':
                     di = di_of[op['m'], op['p']]
                     sim.count('c12.concurrent-writes')
@@ -702,6 +721,16 @@ class C12(Check):
                     continue
                 res.append(Violation('C12.operation-failed', f'{tag}|{op["op"]}|{rec["exc"][0]}',
                                      f'{op}: raised {rec["exc"]}'))
+                continue
+            if op['op'] == 'set_refused':
+                if rec.get('refused') is None:
+                    res.append(Violation('C12.refused-write', 'no-error', f'{op}: no exception for a write to a read-only parameter'))
+                elif rec.get('after') and rec['after'][0] == 'err' and rec['after'][1] == rec['refused'] and \
+                        (rec.get('before') or ['?'])[0] != 'err':
+                    res.append(Violation('C12.cache-changed-by-refused-write', tag,
+                                         f'{op}: the node refused the change ({rec["refused"]}); the cache entry went from '
+                                         f'{rec.get("before")} to {rec["after"]} (an error_change is none of the messages '
+                                         f'the cache follows)'))
                 continue
             if op['op'] == 'set':
                 p = di_of[op['m'], op['p']]
